@@ -48,6 +48,8 @@ type W struct {
 
 	fired map[string]int
 
+	globalAttempt int
+
 	ifaces      map[int]io.Writer
 	handlers    map[int]logslog.Handler
 	bridges     map[int]*log.Logger
